@@ -188,8 +188,8 @@ func (db *DB) search(key types.Key) ([]byte, bool) {
 	return nil, false
 }
 
-func (db *DB) rawset(entry types.Entry) {
-	db.memtable.set(entry)
+func (db *DB) rawset(entries ...types.Entry) {
+	db.memtable.set(entries...)
 
 	if db.memtable.size() >= db.config.MemtableByteThreshold {
 		db.memtable.freeze()
